@@ -413,16 +413,16 @@ ENGINES['C16'] = build_engine
 # ---------------------------------------------------------------------------------------------
 # Decision-table engines (spec/Tab_*.tla): TLC checks the table, emits every row, validates the observed outcomes
 # ---------------------------------------------------------------------------------------------
-def table_run(module, harness_cmd, extra_consts=None, harness_args=(), timeout=1800):
+def table_run(module, harness_cmd, extra_consts=None, harness_args=(), timeout=1800, files=None):
     consts = {'CasesFile': '"cases.ndjson"', 'TraceFile': '"trace.ndjson"', 'VerdictFile': '"verdicts.ndjson"'}
     consts.update(extra_consts or {})
-    g = vlib.run_tlc(module, vlib.cfg_text(consts, init='GenInit', next_='GenNext'), workers=1, timeout=timeout)
+    g = vlib.run_tlc(module, vlib.cfg_text(consts, init='GenInit', next_='GenNext'), workers=1, timeout=timeout, files=files)
     vlib.tlc_ok(g, module + '/table')
     rows = os.path.join(g['dir'], 'cases.ndjson')
     d = vlib.scratch('tab.')
     trace = os.path.join(d, 'trace.ndjson')
     st = vlib.harness([harness_cmd, '-cases', rows, '-out', trace] + list(harness_args))
-    res = vlib.run_tlc(module, vlib.cfg_text(consts, init='TraceInit', next_='TraceNext'), workers=1, timeout=timeout, files={'trace.ndjson': trace})
+    res = vlib.run_tlc(module, vlib.cfg_text(consts, init='TraceInit', next_='TraceNext'), workers=1, timeout=timeout, files=dict(files or {}, **{'trace.ndjson': trace}))
     vf = os.path.join(res['dir'], 'verdicts.ndjson')
     if not os.path.exists(vf):
         raise Inconclusive(module + ' produced no verdicts\n' + res['out'][-4000:])
@@ -539,3 +539,20 @@ def c20_engine(prop, tier, replay, t0):
 
 
 ENGINES['C20'] = c20_engine
+
+
+def c11_engine(prop, tier, replay, t0):
+    vlib.build_harness()
+    d = vlib.scratch('c11.')
+    lang = os.path.join(d, 'lang.ndjson')
+    vlib.harness(['msgtab', '-exportlang', lang])   # the shipped language maps of the real code, as data for TLC
+    verdicts, st, g, res, trace, nrows = table_run('Tab_C11', 'msgtab', extra_consts={'LangFile': '"lang.ndjson"'}, files={'lang.ndjson': lang})
+    return report_table(prop, tier, t0, ['C11'], verdicts, st, g, res, trace, nrows, 'Tab_C11',
+                        'rows = catalogue entry (every built-in test of every schema type, required / not_nil / coerce, invalid_json / invalid_form, custom schema) x test-level option (none, Message, MessageFunc) '
+                        'x WithIssueFormatter (off, on) x global formatter (default, i18n with context language es, i18n without context language, i18n with an unknown language); each row is triggered on the real '
+                        'library; code, type, parameter keys, value, message and the source of the message are compared with the catalogue; the shipped en/es maps are imported as data and checked by TLC',
+                        ['formatters are sentinels that sign their output; the i18n maps are the real shipped maps with a language prefix added', 'wording is not judged'],
+                        replay=bool(replay), known=vlib.load_known())
+
+
+ENGINES['C11'] = c11_engine
